@@ -338,9 +338,20 @@ func (engine *Engine) Shutdown(ctx context.Context) (err error) {
 	}()
 
 	if opt.Registry != nil {
-		if err = opt.Registry.Deregister(opt.RegistryInfo); err != nil {
-			hlog.SystemLogger().Errorf("Deregister error=%v", err)
-			return err
+		// the registry centre may be slow or unreachable: the exit wait time bounds
+		// this call like everything else done here
+		deregistered := make(chan error, 1)
+		go func() {
+			deregistered <- opt.Registry.Deregister(opt.RegistryInfo)
+		}()
+		select {
+		case err = <-deregistered:
+			if err != nil {
+				hlog.SystemLogger().Errorf("Deregister error=%v", err)
+				return err
+			}
+		case <-ctx.Done():
+			hlog.SystemLogger().Errorf("Deregister did not return within the exit wait time: error=%v", ctx.Err())
 		}
 	}
 
